@@ -572,6 +572,79 @@ def r10(ctx, prog):
         raise AnalysisBroken('expected >= 2 level-table subscripts in the sinks, saw %d' % n)
 
 
+def r11(ctx, prog):
+    ctx.rule('C09.R11', 'A10 record framing and sentinels by folding: the asynchronous back end takes a record out of its buffer exactly when the whole frame (header + text) '
+             'is there — the loop test folds to "readable >= sizeof(LogContent)" and the incomplete-frame test to "frame > readable" over a grid, so a record that exactly '
+             'fills the buffer is not held back; text is appended and printed exactly when text_len >= 1; a sink registers with the logger exactly when its id is 0 (the '
+             'value the logger never hands out) and unregisters exactly when it is not', floor=6)
+    n = 0
+    be = prog.fn1('tbox::log::AsyncSink::onLogBackEndReadPipe')
+    loops = [st for st in be.stmts if st and st['k'] == 'WhileStmt' and st.get('cond') is not None and any(c.get('fn') == 'readableSize' for c in q.subtree_calls(be, st['cond']))]
+    if len(loops) != 1:
+        raise AnalysisBroken('AsyncSink::onLogBackEndReadPipe: the frame loop was not found')
+    lp = loops[0]
+    H = None
+    for x in be.walk(lp['cond']):
+        if be.stmts[x]['k'] == 'UnaryExprOrTypeTraitExpr' and be.stmts[x].get('cv') is not None:
+            H = be.stmts[x]['cv']
+    if H is None:
+        raise AnalysisBroken('AsyncSink: sizeof(LogContent) not folded in the loop test')
+    rs = lambda sx: sx['k'] in q.CALL_KINDS and sx.get('fn') == 'readableSize'
+    bad = [r for r in (0, H - 1, H, H + 1, 2 * H) if bool(q.eval_expr(be, lp['cond'], lambda sx, r=r: r if rs(sx) else None)) != (r >= H)]
+    n += 1
+    ctx.ob('C09.R11', 'AsyncSink|header-complete', not bad, 'a header is examined exactly when readable >= %d' % H if not bad else
+           'with %d readable byte(s) (header = %d) the loop %s' % (bad[0], H, 'does not examine a complete header: a record without text is held back' if bad[0] >= H else 'reads a header that is not there'),
+           where=be.loc(lp['cond']))
+    brk = [st for st in be.stmts if st and st['k'] == 'BreakStmt' and st['i'] in set(be.walk(lp['i']))]
+    for b_ in brk:
+        conds = [c for c, k, bb in be.cfg.controlling_branches(q.pt_or_term(be, b_)) if c != lp['cond'] and any(rs(be.stmts[x]) for x in be.walk(c))]
+        for c in conds:
+            names = {be.stmts[x].get('n') for x in be.walk(c) if be.stmts[x]['k'] == 'DeclRefExpr' and be.stmts[x].get('dk') == 'Var'}
+            bad = []
+            for fs in (H, H + 1, H + 5):
+                for r in (H, H + 1, H + 4, H + 5, H + 6):
+                    v = q.eval_expr(be, c, lambda sx, fs=fs, r=r: r if rs(sx) else (fs if (sx['k'] == 'DeclRefExpr' and sx.get('n') in names) else None))
+                    if v is None or bool(v) != (fs > r):
+                        bad.append((fs, r))
+            n += 1
+            ctx.ob('C09.R11', 'AsyncSink|frame-complete', not bad, 'the loop stops exactly when the frame is longer than what is buffered' if not bad else
+                   'with a frame of %d bytes and %d buffered the record is %s' % (bad[0][0], bad[0][1], 'held back although complete: the last record of a burst is written only when the '
+                                                                                    'next one arrives (or never)' if bad[0][0] <= bad[0][1] else 'taken although incomplete'), where=be.loc(c))
+    # text_len >= 1
+    tl = lambda sx: sx['k'] == 'MemberExpr' and sx.get('n') == 'text_len'
+    for name in ('tbox::log::AsyncSink::onLogFrontEnd', 'tbox::log::AsyncSink::onLogBackEnd', 'tbox::log::SyncStdoutSink::onLogFrontEnd'):
+        fs_ = prog.fn(name)
+        for g in fs_:
+            for blk in g.cfg.blocks.values():
+                if blk.cond is not None and any(tl(g.stmts[x]) for x in g.walk(blk.cond)) and not any(g.stmts[x]['k'] == 'DeclRefExpr' and g.stmts[x].get('dk') == 'Var' for x in g.walk(blk.cond)):
+                    bad = [v for v in range(0, 4) if bool(q.eval_expr(g, blk.cond, lambda sx, v=v: v if tl(sx) else None)) != (v >= 1)]
+                    n += 1
+                    ctx.ob('C09.R11', '%s|text-iff-nonempty@%s' % (g.name.split('::')[-2] + '::' + g.short, g.loc(blk.cond).split(':')[-1]), not bad,
+                           'the text is handled exactly when text_len >= 1' if not bad else 'a text of %d byte(s) is %s' % (bad[0], 'dropped' if bad[0] >= 1 else 'read although empty'), where=g.loc(blk.cond))
+    # sink registration sentinel
+    oid = lambda sx: sx['k'] == 'MemberExpr' and sx.get('n') == 'output_id_'
+    for mname, want_zero, act in (('enable', True, 'LogAddPrintfFunc'), ('disable', False, 'LogRemovePrintfFunc')):
+        g = prog.fn1('tbox::log::Sink::' + mname)
+        calls = [c for c in g.calls() if c.get('callee', '').endswith(act)]
+        if not calls:
+            raise AnalysisBroken('Sink::%s: %s not called' % (mname, act))
+        for cond, k, b in g.cfg.controlling_branches(q.pt(g, calls[0])):
+            if any(oid(g.stmts[x]) for x in g.walk(cond)):
+                bad = [v for v in range(0, 4) if (bool(q.eval_expr(g, cond, lambda sx, v=v: v if oid(sx) else None)) == (k == 0)) != ((v == 0) == want_zero)]
+                n += 1
+                ctx.ob('C09.R11', 'Sink::%s|id-sentinel' % mname, not bad, '%s exactly when output_id_ %s 0' % (act, '==' if want_zero else '!=') if not bad else
+                       'Sink::%s() %s for output_id_ == %d: 0 is the only value that means "not registered" (the logger counts ids up from 1)' %
+                       (mname, 'skips the registration' if want_zero and bad[0] == 0 else 'acts', bad[0]), where=g.loc(cond))
+    adds = [g for g in prog.funcs.values() if g.short == 'LogAddPrintfFunc' and not g.parent_usr]
+    add = adds[0] if adds else None
+    if add is not None:
+        pre = [st for st in add.stmts if st and st['k'] == 'UnaryOperator' and st.get('op') == '++' and not st.get('post')]
+        n += 1
+        ctx.ob('C09.R11', 'LogAddPrintfFunc|never-zero', bool(pre), 'ids are handed out by pre-increment from 0: the first is 1', where=add.loc(add.body))
+    if n < 6:
+        raise AnalysisBroken('expected >= 6 framing/sentinel tests in the sinks, found %d' % n)
+
+
 def run(ctx):
     prog = extract('ALL' if ctx.tier == 'thorough' else scope_units())
     ctx.guard(r1, ctx, prog)
@@ -583,4 +656,5 @@ def run(ctx):
     ctx.guard(r8, ctx, prog)
     ctx.guard(r9, ctx, prog)
     ctx.guard(r10, ctx, prog)
+    ctx.guard(r11, ctx, prog)
     return prog
